@@ -14,7 +14,7 @@ import math
 from fractions import Fraction
 
 from .. import gen
-from ..common import cnat, cq, cbool, clist, coq_eval
+from ..common import cnat, cq, cbool, clist, safe_coq_eval
 from ..impl import Impl
 
 IMPORTS = ['Base.Util', 'Model.Gnn']
@@ -244,8 +244,10 @@ def run(ctx, scratch):
                 sqrt_bad += 1
         exprs.append('mout (forward %s (fun x : Q => x) %s %s %s)' %
                      (sq, layer_lit(c), smat_lit(c['n'], c['triples']), feats_lit(c['X'], c['d'], c['sparse'])))
-    model_vals = coq_eval('c19fwd', IMPORTS, exprs, prelude=PRELUDE, shard=150)
-    model = {i: to_float(v) for i, v in zip(exact_idx, model_vals)}
+    # (None = the model no longer evaluates, recorded in ctx.proof_broken: no model diff; the formula oracle spec_forward and the
+    # renumbering comparison below do not need it)
+    model_vals = safe_coq_eval(ctx, 'c19fwd', IMPORTS, exprs, prelude=PRELUDE, shard=150)
+    model = {i: to_float(v) for i, v in zip(exact_idx, model_vals or [])}
     if sqrt_bad:
         ctx.notes.append('%d square-root table entries missed the contract |s*s-d| <= 1e-12 d' % sqrt_bad)
 
@@ -415,8 +417,9 @@ def run(ctx, scratch):
             e = clist([('%s %s %d' % (fn, clist(p_, cq), y)) for p_, y in zip(r['ok']['probs'], g['labels'])])
             exprs.append('mout %s' % e)
             targets.append((g['name'] + '.loss_gradient', g, r['ok']['gradient'], dict(loss=g['name'])))
-        vals = coq_eval('c19grad', IMPORTS, exprs, prelude=PRELUDE, shard=120)
-        for (site, g, got, fields), v in zip(targets, vals):
+        # (closed forms evaluated inside Coq: model side, skipped when dead; finite differences above judged every gradient)
+        vals = safe_coq_eval(ctx, 'c19grad', IMPORTS, exprs, prelude=PRELUDE, shard=120)
+        for (site, g, got, fields), v in zip(targets, vals or []):
             ctx.count('formula:' + site, ('formula', site, g), True)
             if not mat_close(got, to_float(v)):
                 ctx.violation(site, 'implementation differs from the modelled closed form', case=g, expected=to_float(v),
@@ -456,10 +459,10 @@ def run(ctx, scratch):
             exprs.append('sout (sample_rows %d %s %s)' % (ss, clist(src, lambda rw: clist(rw, lambda e: '(%d, %s)' % (e[0], cq(e[1])))),
                                                   clist(r['ok']['stream'], lambda l: clist(l, cnat))))
             keep.append((s, rows))
-        vals = coq_eval('c19samp', IMPORTS, exprs, shard=200, prelude=PRELUDE +
-                        'Definition sout (r : result smat) : result (list (list (nat * (Z * Z)))) :=\n'
-                        '  match r with Ok a => Ok (map (map (fun e => (fst e, qout (snd e)))) a) | Err e => Err e end.\n')
-        for (s, rows), v in zip(keep, vals):
+        vals = safe_coq_eval(ctx, 'c19samp', IMPORTS, exprs, shard=200, prelude=PRELUDE +
+                             'Definition sout (r : result smat) : result (list (list (nat * (Z * Z)))) :=\n'
+                             '  match r with Ok a => Ok (map (map (fun e => (fst e, qout (snd e)))) a) | Err e => Err e end.\n')
+        for (s, rows), v in zip(keep, vals or []):
             exp = [[[int(e[0]), float(Fraction(e[1][0], e[1][1]))] for e in rw] for rw in v[1]] if v[0] == 'Ok' else {'err': v}
             if exp != rows:
                 ctx.violation('UniformNeighborSampler', 'implementation differs from the model on the recorded choice stream',
